@@ -476,6 +476,7 @@ pub fn gen_reclaim(seed: u64, property: &str) -> Plan {
     let open_op = |ids: &mut IdGen| Op { id: ids.next(), kind: OpKind::Open { inst: 0, key: Some("k".into()), dir: "d".into(), alo, fsync: fsync.clone() } };
     // lazy consumers leave data behind; eager ones drain often
     let eager = rng.chance(0.6);
+    let cap_mode = rng.chance(0.3);
     for inc_i in 0..n_inc {
         let mut ops = vec![open_op(&mut ids)];
         let rounds = rng.range(3, 9);
@@ -484,6 +485,18 @@ pub fn gen_reclaim(seed: u64, property: &str) -> Plan {
             let burst = rng.range(4, 14);
             for _ in 0..burst {
                 let t = rng.below(n_topics as u64) as u32;
+                if cap_mode && rng.chance(0.2) {
+                    // more pending entries than one batch read may return (2000): the read stops
+                    // inside a block although its budget covered all of them
+                    let n = rng.range(900, 2000);
+                    let lens: Vec<u64> = (0..n).map(|_| rng.range(24, 40)).collect();
+                    outstanding[t as usize] += lens.len();
+                    ops.push(Op { id: ids.next(), kind: OpKind::BatchAppend { inst: 0, topic: t, lens } });
+                    if rng.chance(0.5) {
+                        ops.push(Op { id: ids.next(), kind: OpKind::BatchRead { inst: 0, topic: t, max_bytes: u64::MAX - rng.below(3), checkpoint: true, start: None } });
+                    }
+                    continue;
+                }
                 if rng.chance(0.25) {
                     let n = rng.range(2, 5);
                     let lens: Vec<u64> = (0..n).map(|_| rng.range(g.block / 6, g.block / 2)).collect();
@@ -505,7 +518,7 @@ pub fn gen_reclaim(seed: u64, property: &str) -> Plan {
                 let mode = if eager { rng.below(4) } else { rng.below(7) };
                 match mode {
                     0 | 1 => {
-                        ops.push(Op { id: ids.next(), kind: OpKind::Drain { inst: 0, topic: t, mode: rng.pick(&["next", "mix", "batch"]).to_string(), max: 3000 } });
+                        ops.push(Op { id: ids.next(), kind: OpKind::Drain { inst: 0, topic: t, mode: rng.pick(&["next", "mix", "batch"]).to_string(), max: 30_000 } });
                         outstanding[t as usize] = 0;
                         for _ in 0..rng.below(4) {
                             // repeated empty polls at an exact block end
@@ -522,7 +535,8 @@ pub fn gen_reclaim(seed: u64, property: &str) -> Plan {
                         }
                     }
                     3 => {
-                        ops.push(Op { id: ids.next(), kind: OpKind::BatchRead { inst: 0, topic: t, max_bytes: rng.range(g.block / 2, 3 * g.block), checkpoint: true, start: None } });
+                        let mb = if cap_mode && rng.chance(0.5) { u64::MAX } else { rng.range(g.block / 2, 3 * g.block) };
+                        ops.push(Op { id: ids.next(), kind: OpKind::BatchRead { inst: 0, topic: t, max_bytes: mb, checkpoint: true, start: None } });
                         for _ in 0..rng.below(3) {
                             ops.push(Op { id: ids.next(), kind: OpKind::ReadNext { inst: 0, topic: t, checkpoint: false } });
                         }
@@ -548,7 +562,7 @@ pub fn gen_reclaim(seed: u64, property: &str) -> Plan {
         let last = inc_i + 1 == n_inc;
         if last {
             for t in 0..n_topics as u32 {
-                ops.push(Op { id: ids.next(), kind: OpKind::Drain { inst: 0, topic: t, mode: "next".into(), max: 6000 } });
+                ops.push(Op { id: ids.next(), kind: OpKind::Drain { inst: 0, topic: t, mode: "next".into(), max: 60_000 } });
             }
             ops.push(Op { id: ids.next(), kind: OpKind::Sleep { ms: 1100 } });
             ops.push(Op { id: ids.next(), kind: OpKind::ListDir { dir: "d/k".into() } });
